@@ -479,6 +479,31 @@ def _evaluate(fed):
             bad.append(('identity_providers-listing-differs', [], idps))
     except Exception as e:
         bad.append(('identity_providers-raised', [], type(e).__name__))
+    # the same for attribute authorities, and the per-entity bindings listing (what service() says, under another name)
+    n += 1
+    try:
+        aas = sorted(mds.attribute_authorities())
+        want = sorted(e for e in ALL_IDS if any('attribute_authority' in c['roles'] for c in served_candidates(docs, e)))
+        maybe = sorted(e for e in ALL_IDS if served_candidates(docs, e) and all('attribute_authority' in c['roles'] for c in served_candidates(docs, e)))
+        if not (set(maybe) <= set(aas) <= set(want)):
+            bad.append(('attribute_authorities-listing-differs', [], aas))
+    except Exception as e:
+        bad.append(('attribute_authorities-raised', [], type(e).__name__))
+    for eid in ALL_IDS:
+        if not served_candidates(docs, eid):
+            continue
+        for typ, svc in QUERIES:
+            n += 1
+            try:
+                a = mds.service(eid, typ + '_descriptor', svc)
+            except Exception:
+                continue
+            try:
+                b2 = mds.bindings(eid, typ + '_descriptor', svc)
+            except Exception as e:
+                b2 = 'EXC:%s' % type(e).__name__
+            if a and norm_endpoints(b2) != norm_endpoints(a):
+                bad.append(('bindings-listing-differs-from-service', [eid, typ, svc], None))
     return name, n, bad
 
 
